@@ -194,7 +194,7 @@ def fail_reason(verdict):
 
 def sim_shrink(d, header, evs, budget=2500, mode="trace"):
     """ddmin over the EV lines: keep any sub-schedule on which validation still fails."""
-    bad = " FAIL " if mode == "trace" else " UNSAFE "
+    bad = " UNSAFE " if mode == "monitor" else " FAIL "
 
     def failing(cand):
         v, _ = sim_eval(d, [header] + cand, mode=mode)
@@ -315,9 +315,9 @@ def deviation(ctx, d, b, k, line):
 def sim_part(ctx, d):
     """Returns (stats, violation-dict-or-None, broken-or-None)."""
     if ctx.tier == "quick":
-        batches = [(0, 1200, 400), (1000000, 12, 2000)]
+        batches = [(0, 900, 400), (3000000, 250, 400), (1000000, 10, 2000)]
     else:
-        batches = [(0, 40000, 400), (1000000, 600, 3000), (2000000, 10, 10000)]
+        batches = [(0, 36000, 400), (3000000, 4000, 400), (1000000, 600, 3000), (2000000, 10, 10000)]
     tot_sched = tot_events = nontriv = 0
     hashes = set()
     agg = dict(elections=0, commits=0, truncs=0, restarts=0, compactions=0, snapshots=0)
@@ -388,8 +388,9 @@ def sim_part(ctx, d):
 def cc_part(ctx, d):
     """Membership-change schedules (ProposeConfChange add/remove/joint, applied at commit): outside
     the proved model, so only the safety predicates on the observed states are evaluated."""
-    batches = [(7000000, 500, 400)] if ctx.tier == "quick" else [(7000000, 15000, 400), (8000000, 200, 3000)]
+    batches = [(7000000, 400, 400)] if ctx.tier == "quick" else [(7000000, 15000, 400), (8000000, 200, 3000)]
     tot = ev = conf = leaders = 0
+    vev = vsw = vok = venv = vcfgmax = 0
     viol = None
     bi = 0
     for first, count, nev in batches:
@@ -406,6 +407,23 @@ def cc_part(ctx, d):
             rc, out = lib.sh("%s monitor traces.txt monitor.txt" % (lib.BUILD / RUNNER), cwd=b, timeout=6000)
             if rc != 0:
                 return {}, None, "raftrun monitor failed: " + out[-2000:]
+            rc, out = lib.sh("%s tracecc traces.txt verdicts.txt" % (lib.BUILD / RUNNER), cwd=b, timeout=6000)
+            if rc != 0:
+                return {}, None, "raftrun tracecc failed: " + out[-2000:]
+            dev = None
+            for line in (b / "verdicts.txt").read_text().splitlines():
+                t = line.split()
+                if len(t) < 3:
+                    continue
+                if t[2] == "OK":
+                    kv = dict(x.split("=", 1) for x in t[3:] if "=" in x)
+                    vev += int(kv["events"])
+                    vsw += int(kv["confswitches"])
+                    vok += 1
+                    venv += int(kv["envelope"])
+                    vcfgmax = max(vcfgmax, int(kv["configs"]))
+                elif dev is None:
+                    dev = (t[1], line)
             for line in (b / "monitor.txt").read_text().splitlines():
                 t = line.split()
                 if len(t) < 3:
@@ -429,20 +447,38 @@ def cc_part(ctx, d):
                                 with_membership_changes=True, reason=fail_reason(v2), verdict=v2, header=header,
                                 events=shr, trace_tail=trace.splitlines()[-14:],
                                 theorem="(no theorem covers membership change) safety predicates of C15 evaluated on the observed states of the real RawNodes",
-                                note=NOTE + "; CC i code = ProposeConfChange at node i: 100+x add voter x, 200+x remove voter x, 1000+10a+b add a / remove b via joint config")
+                                note=NOTE + "; CC i code = ProposeConfChange at node i: 100+x add voter x, 110+x remove voter x, 130+10a+b add a / remove b via joint config")
+            if viol is None and dev is not None:
+                # the implementation deviates from the membership-change model, no safety predicate failed
+                kk, line = dev
+                header, evs = schedule_of(b / "traces.txt", kk)
+                fe = fail_event(line)
+                if fe:
+                    evs = evs[:fe]
+                shr, v = sim_shrink(b, header, evs, mode="tracecc")
+                v2, trace = sim_eval(b, [header] + shr, tag="final", mode="tracecc")
+                if not v2 or " FAIL " not in v2:
+                    v2 = line + "   [NOT reproduced by the explicit replay of its schedule: original verdict shown]"
+                viol = dict(kind="trace-validation-cc", found_input=False, schedule=int(kk), seed=ctx.seed,
+                            with_membership_changes=True, reason=fail_reason(v2), verdict=v2, header=header,
+                            events=shr, trace_tail=trace.splitlines()[-12:],
+                            theorem="C15_check_step_cc_sound: an accepted step is a step of RaftCC.cxstep (the model of raft WITH membership changes); on this schedule the implementation takes a step that is NOT one.  No safety predicate failed on the observed states of this chunk",
+                            note=NOTE + "; CC i code = ProposeConfChange at node i: 100+x add voter x, 110+x remove voter x, 130+10a+b add a / remove b via joint config")
             if viol is None:
                 try:
                     (b / "traces.txt").unlink()
                 except OSError:
                     pass
             k += c
-    stats = dict(cc_schedules=tot, cc_events=ev, cc_conf_changes_committed=conf, cc_terms_with_a_leader=leaders,
+    stats = dict(cc_validated_schedules=vok, cc_validated_events=vev, cc_config_switches_validated=vsw,
+                 cc_schedules_inside_proved_envelope=venv, cc_max_distinct_configurations_in_a_schedule=vcfgmax,
+                 cc_schedules=tot, cc_events=ev, cc_conf_changes_committed=conf, cc_terms_with_a_leader=leaders,
                  cc_scope="; ".join("%d schedules x %d events" % (c, n) for _, c, n in batches))
     return stats, viol, None
 
 
 def replay_sim(ctx, r, d):
-    mode = "monitor" if r.get("kind") == "safety-violation" else "trace"
+    mode = "monitor" if r.get("kind") == "safety-violation" else ("tracecc" if r.get("kind") == "trace-validation-cc" else "trace")
     v, trace = sim_eval(d, [r["header"]] + r["events"], tag="replay", mode=mode)
     if v is None:
         print("replay: could not run:", trace)
@@ -470,7 +506,7 @@ def run(ctx):
             return 1
         if r.get("kind", "").startswith("impl-vs-model quorum"):
             return replay_quorum(ctx, r, d)
-        if r.get("kind") in ("trace-validation", "safety-violation"):
+        if r.get("kind") in ("trace-validation", "safety-violation", "trace-validation-cc"):
             return replay_sim(ctx, r, d)
         print("replay: nothing to re-run for kind=%r: %s" % (r.get("kind"), r.get("what", "")[:500]))
         return 1
@@ -500,7 +536,7 @@ def run(ctx):
         if kf["kind"] == "open":
             print("KNOWN-FINDING: property=%s %s %s" % (PID, kf["id"], kf["text"]))
     cov.update(dict(
-        evaluations=stats.get("quorum_cases", 0) + stats.get("sim_events", 0),
+        evaluations=stats.get("quorum_cases", 0) + stats.get("sim_events", 0) + stats.get("cc_validated_events", 0),
         distinct_nontrivial=stats.get("quorum_distinct_nontrivial", 0) + stats.get("sim_distinct_nontrivial", 0),
         rule="(D) " + stats.get("quorum_scope", "-") + "; a quorum case is non-trivial when its first config is non-empty and the four answers are not the all-default tuple; distinct = distinct case lines. "
              "(V) " + stats.get("sim_scope", "-") + " on 1-5 real RawNodes (seeded adversarial scheduler: deliver/duplicate/drop/reorder, partitions, tick, propose, campaign, crash-restart, crash before persisting); every event is one evaluation, checked by the extracted check_step (exact equality of term/vote/commit/role/lead/log with the model, replies present, other messages allowed by emit_okb) plus the extracted safety predicates; a schedule is non-trivial when a leader was elected and an entry beyond the leader's empty entry was committed; distinct = distinct md5 of the event sequence",
@@ -512,7 +548,7 @@ def run(ctx):
         sim=dict((k, v) for k, v in stats.items() if k.startswith("sim_") and k != "sim_samples"),
         membership_change_exploration=dict(
             (k, v) for k, v in stats.items() if k.startswith("cc_")) or None,
-        membership_change_note="NOT covered by a theorem: schedules with ProposeConfChange (add/remove a voter, joint add+remove with automatic leave; applied when committed) are only explored, and only the safety predicates on the observed states of the real RawNodes are evaluated (raftrun monitor); these events are not counted in evaluations/distinct_nontrivial",
+        membership_change_note="schedules with ProposeConfChange (add/remove a voter, joint add+remove with automatic leave; applied when committed) are (a) validated event by event against the membership-change model RaftCC.exec_cc by the extracted check_step_cc (exact equality of term/vote/commit/role/lead/log AND of the node's configuration; sound w.r.t. RaftCC.cxstep) — these events are counted in evaluations — and (b) monitored: the safety predicates are evaluated on the observed states.  The SAFETY theorems cover such runs only inside a family of pairwise-intersecting configurations (C15_cc_*_partial); the general chain argument of joint consensus is not proved",
         correspondence="(D) quorum.{MajorityConfig,JointConfig}.{CommittedIndex,VoteResult} (built from VERIF_REPO working tree) vs extracted Gallina majority_/joint_ functions, compared on every case; (V) raft.RawNode + MemoryStorage (built from VERIF_REPO) vs extracted check_step on every event",
     ))
     lib.write_evidence(PID, ctx.tier, ctx.seed, cov,
